@@ -465,6 +465,14 @@ class Contract:
                     outs.append(ex.raise_(s_r, cls, msg, error_message=msg))
                     nxt.append(s)
                     continue
+                if cond.startswith("onlyif_"):  # may be raised, but only when the condition holds
+                    s_r = s.fork()
+                    s_r.assume(self.clause_formula(ex, s_r, cond, bound))
+                    if ex.feasible(s_r.pc):
+                        msg = SV(mk_s(ex.fresh("msg", z3.StringSort())), "str")
+                        outs.append(ex.raise_(s_r, cls, msg, error_message=msg))
+                    nxt.append(s)
+                    continue
                 f = self.clause_formula(ex, s, cond, bound)
                 for s3, t in ex.branch(s, f):
                     if t:
